@@ -36,13 +36,18 @@ Definition total_liq (s : amm) : Z := fold_right (fun p acc => pos_liq p + acc) 
 Definition PP : Z := P * P.
 
 (* the stated loss bound (in whole units of the output denom) of an exact-input swap:
-   per loop step, two units of final/step rounding plus one price ulp (10^-18) times the
-   liquidity, which for base output is further divided by the squared price *)
+   per loop step, three units of final/step rounding, one price ulp (10^-18) times the
+   liquidity (for base output further divided by the squared price), and the value of ONE UNIT
+   OF THE INPUT token at the pre-swap price (the most favourable price of the path): the input
+   consumed by a step that reaches its target is rounded up to a whole unit
+   (C05_quote_amount_in_rounded_up). Where one input unit is worth many output units (a quote
+   token of few decimals against a base token of many: price far below 1) that term dominates. *)
 Definition loss_bound (s : amm) (di : Z) : Z :=
   let steps := steps_bound s di in
   let l := total_liq s + p_liq (a_pool s) in
-  if di =? 0 then steps * (3 + l / PP)
-  else steps * (3 + l / (p_sqrt (a_pool s) * p_sqrt (a_pool s) + 1) + l / PP).
+  let sp2 := p_sqrt (a_pool s) * p_sqrt (a_pool s) in
+  if di =? 0 then steps * (4 + l / PP + sp2 / PP)
+  else steps * (4 + l / (sp2 + 1) + l / PP + PP / (sp2 + 1)).
 (* same for the input of an exact-output swap (base input when di = 0: divided by the squared price,
    which only falls during the swap: use the post-state price) *)
 Definition over_bound (pre post : amm) (di : Z) : Z :=
